@@ -706,6 +706,9 @@ func run(dir string, seed uint64, tier string) error {
 		installedCase(w, base(), []tar.Header{{Name: "dev/", Typeflag: tar.TypeDir, Mode: 0o755}, {Name: "init", Typeflag: tar.TypeReg, Mode: 0o644}, tree[0], tree[1]}, "corpus",
 			"C16-F5: top-level entries without children are not reached by sortTarHeaders")
 		installedCase(w, base(), []tar.Header{tree[0], tree[2]}, "corpus", "C16-F5: entry whose directory has no header")
+		installedCase(w, base(), []tar.Header{{Name: "s/", Typeflag: tar.TypeDir, Mode: 0o755}, {Name: "s/d/", Typeflag: tar.TypeDir, Mode: 0o755},
+			{Name: "s/d/x", Typeflag: tar.TypeReg, Mode: 0o644}, {Name: "s/d/", Typeflag: tar.TypeDir, Mode: 0o755}}, "corpus",
+			"C16-F7: a directory named twice in the file list multiplies its records on every write")
 		installedCase(w, base(), nil, "corpus", "no files")
 		bad := append([]tar.Header{}, tree...)
 		bad[2].PAXRecords = map[string]string{apk.VerifPaxRecordsChecksumKey: "not-hex"}
